@@ -146,7 +146,16 @@ def c20(ctx):
         d_out = [bi for bi, t in rc.calls() if callee_def(t) == "cli::dump_output"]
         ok = len(d_out) == 1 and all(rc.dominates(b, d_out[0]) or b == d_out[0] or b in rc.reachable_from_succs(d_out[0]) is False for b in [])
         runs = [bi for bi, t in rc.calls() if (callee_def(t) or "").endswith("::run")]
-        ok = len(d_out) == 1 and all(d_out[0] in rc.reachable_from_succs(b) for b in runs) and not any(b in rc.reachable_from_succs(d_out[0]) for b in runs)
+        # every run's result is handed to a dump_output that follows it; no run after a dump; at most one dump on a path
+        ok = bool(d_out) and bool(runs)
+        for b in runs:
+            fed = [d_ for d_ in d_out if d_ in rc.reachable_from_succs(b) and any(flows_into(rc, b, a) for a in rc.term(d_)["args"])]
+            if not fed:
+                ok = False
+        if any(b in rc.reachable_from_succs(d_) for d_ in d_out for b in runs):
+            ok = False
+        if any(d2 in rc.reachable_from_succs(d1) for d1 in d_out for d2 in d_out):
+            ok = False
         rep.ob("C20.R1", "output-dumped-after-the-run", ok, "" if ok else "dump_output is not called once, after the selected run has finished", rc.loc(), how="dump_output(result of the run)")
         # sub-command names -> Command variants in cli()
         pairs = set()
@@ -196,19 +205,45 @@ def c20(ctx):
             rep.fail("C20.R2", "anchor::From<%s>" % src, "impl From<%s> for cli::Error not found" % src)
             continue
         rep.analysed(fn)
-        # every argument a string constant flows into: the set of constants that can reach it
-        per_arg = []
+        # the text constants of the conversion (its own body): exactly the prefix; it becomes the first segment and the error's own
+        # rendering the second -- in this body or in the private helper the two are handed to
+        consts = []
         for bi, t in fn.calls():
-            for a in t["args"]:
+            for ai, a in enumerate(t["args"]):
                 cs = sorted({d[1] for d, p in kind_deep(fn, a) if d[0] == "const" and isinstance(d[1], str) and len(d[1]) > 1})
                 if cs:
-                    per_arg.append((bi, cs))
-        with_prefix = [(bi, cs) for bi, cs in per_arg if prefix in cs]
-        first = sorted({c_ for bi, cs in per_arg for c_ in cs})
-        to_s = [bi for bi, t in fn.calls() if t["callee"].get("name") == "to_string"]
-        # the prefix is the only text constant of the conversion (no alternative prefix on some path) and precedes the error's text
-        ok = bool(with_prefix) and all(cs == [prefix] for bi, cs in per_arg) and bool(to_s) and min(bi for bi, cs in with_prefix) < to_s[0]
-        first = first if first != [prefix] else prefix
+                    consts.append((bi, ai, cs))
+        all_c = sorted({c_ for bi, ai, cs in consts for c_ in cs})
+        first = all_c if all_c != [prefix] else prefix
+
+        def ordered(body, is_prefix, is_text):
+            """a two-element array / vec literal in `body` whose first element derives from the prefix and second from the error text"""
+            for bi, si, st in body.assigns():
+                if st["rv"].get("agg") == "array" or (isinstance(st["rv"].get("agg"), dict) and "array" in st["rv"]["agg"]):
+                    ops = st["rv"].get("ops", [])
+                    if len(ops) == 2 and is_prefix(body, ops[0]) and is_text(body, ops[1]) and not is_text(body, ops[0]):
+                        return True
+            return False
+
+        def text_of(param_idx):
+            return lambda body, o: any(d[0] == "call" and body.term(d[1])["callee"].get("name") == "to_string" and
+                                       any(dd == ("param", param_idx) for dd, pp in kind_deep(body, body.term(d[1])["args"][0])) for d, p in kind_deep(body, o))
+        ok = all_c == [prefix]
+        if ok:
+            here = ordered(fn, lambda body, o: any(d[0] == "const" and d[1] == prefix for d, p in kind_deep(body, o)), text_of(1))
+            via = False
+            for bi, ai, cs in consts:
+                h = F.fn(callee_def(fn.term(bi)) or "")
+                if h is None or not h.mir or h.file != fn.file:
+                    continue
+                # which parameter of the helper receives the error
+                t = fn.term(bi)
+                epar = [j + 1 for j, a in enumerate(t["args"]) if any(dd == ("param", 1) for dd, pp in kind_deep(fn, a))]
+                if epar and ordered(h, lambda body, o, k=ai + 1: any(d == ("param", k) for d, p in kind_deep(body, o)), text_of(epar[0])):
+                    via = True
+            ok = here or via
+            if not ok:
+                first = "%r, but not as the first of the two segments [prefix, error text]" % prefix
         rep.ob("C20.R2", "prefix::" + src.rsplit("::", 1)[-1], ok, "" if ok else "the message built from a %s starts with %r" % (src, first), fn.loc(), how=repr(prefix) + " + the error's own text")
     printers = set()
     for fn, bi, t in common.who_calls(F, lambda c: c["def"] in ("std::io::_print", "std::io::_eprint")):
@@ -278,7 +313,7 @@ def render_rule(ctx, rule):
     def ext(label, pl):
         fs = [name for of, name, _ in place_fields(pl) if of == DIAG]
         return label + tuple(fs[:1]) if fs and len(label) == 1 else label
-    lab = Labels(F, fn, {(fn.path, 1): {("diag",)}}, extend=ext)
+    lab = Labels(F, fn, {(fn.path, 1): {("diag",)}}, extend=ext, through_mut=True)
     ret = lab.lab.get((fn.path, 0), set())
     got = {l[1] for l in ret if len(l) == 2}
     # fields read inside closures reach the result through the closure's own return; collect them too
@@ -299,7 +334,7 @@ def render_rule(ctx, rule):
             if v.startswith("b\"") and v.rstrip('"').endswith("\\n\\x00"):
                 sval = "\n"
         if sval is not None and sval.endswith("\n"):
-            l2 = Labels(F, fn, {(fn.path, st["pl"]["l"]): {"nl"}})
+            l2 = Labels(F, fn, {(fn.path, st["pl"]["l"]): {"nl"}}, through_mut=True)
             if "nl" in l2.lab.get((fn.path, 0), set()):
                 term = True
     rep.ob(rule, "render::own-terminator", term, "" if term else "no line break of the function's own reaches the rendered text: a diagnostic without suggestions is not terminated and runs into the next one", fn.loc(),
@@ -329,7 +364,7 @@ def _loaders(F):
 
 def hand_through_rule(ctx, rule):
     F, rep = ctx.F, ctx.rep
-    BORROW = ("deref", "as_str", "as_ref", "borrow", "as_bytes", "read_to_string", "clone", "to_owned", "to_string", "into", "from")
+    BORROW = ("deref", "as_str", "as_ref", "borrow", "as_bytes", "read_to_string", "clone", "to_owned", "to_string", "into", "from", "branch", "from_output")
     lr = F.fn("cli::load_and_run_from_command_line")
     if lr is None:
         rep.fail(rule, "anchor::load_and_run", "cli::load_and_run_from_command_line not found")
